@@ -52,16 +52,27 @@ def build_program(pt, ts, st, val, backend, sub_seed):
             return output.set(pt.Int(v))
         return mk()
 
+    def first_value(r, out):
+        # every fourth case: the instance is first given another value of its type (set() must fully overwrite, whatever the
+        # instance held before: stale tails, offsets, bits)
+        if sub_seed % 4 != 0:
+            return []
+        other = abigen.rand_val(random.Random(sub_seed + 1), st)
+        try:
+            return abigen.build_set(pt, ts, st, other, out, random.Random(sub_seed + 2), None)
+        except Exception:
+            return []
+
     if backend == "main":
         out = ts.new_instance()
-        return pt.Seq(*abigen.build_set(pt, ts, st, val, out, rng, computed), pt.Log(out.encode()), pt.Int(1))
+        return pt.Seq(*first_value(rng, out), *abigen.build_set(pt, ts, st, val, out, rng, computed), pt.Log(out.encode()), pt.Int(1))
 
     @pt.Subroutine(pt.TealType.bytes)
     def mk():
         # deterministic on every evaluation of the body
         r2 = random.Random(sub_seed)
         out = ts.new_instance()
-        return pt.Seq(*abigen.build_set(pt, ts, st, val, out, r2, computed), out.encode())
+        return pt.Seq(*first_value(r2, out), *abigen.build_set(pt, ts, st, val, out, r2, computed), out.encode())
     return pt.Seq(pt.Log(mk()), pt.Int(1))
 
 
